@@ -175,6 +175,10 @@ func runRet(ci interface{}, s *vkit.Stats) error {
 		case "standin":
 			ft := standIn[t]
 			real := vkit.Value(t, code+1)
+			if code%4 == 0 {
+				real = reflect.New(t).Elem() // the zero value: all pointer-like fields nil
+				s.Class("standin/zero-valued")
+			}
 			fake := reflect.NewAt(ft, unsafe.Pointer(real.Addr().Pointer())).Elem() // same bytes, stand-in type
 			vals[i] = fake.Interface()
 			if t.Size() == 8 {
